@@ -68,6 +68,10 @@ FIRST = {
     'd07-C15': 'caught', 'd09-C17': 'caught',
     'd06-C14': 'caught',
     'e03-C03': 'caught', 'e06-C06': 'caught', 'e10-C10': 'caught', 'e18-C18': 'caught',
+    'e01-C01': 'caught', 'e02-C02': 'caught (the reintroduction of defect 5)',
+    'e20-C20': 'missed -> R4 promotes-the-recorded-dtypes; the extended rule then reported the same construct in the NumPy backend of the pinned tree: genuine defect 18, fixed in aeac884',
+    'e09-C09': 'caught',
+    'e05-C05': 'missed -> new rule L6 (no call-spanning scratch state: function-local statics are once-initialised values, locks or locked caches)',
     'c03-C03': 'missed by C03 (D2 reported it under C02 / C13) -> D2 now also decides C03',
     'c02-C02': 'missed by C02 (T3 reported it under C17 / C18) -> T1, T3, T3b now also decide C02',
     'c01-C01': 'missed by C01 (the same change as b10, written independently; DC1 reported it under C19) -> DC1 and DC4 now also decide C01',
